@@ -69,4 +69,25 @@ structure Ctx.WF (c : Ctx) : Prop where
   importerProgram : ∀ q p, Imports c q p → IsProgram c q
   importTrans : ∀ a b d, Imports c a b → Imports c b d → Imports c a d
 
+/-- `q` imports `p` in the database as stored (`exportations[p]` lists the importers of `p`). -/
+def DB.Exp (db : DB) (q p : Codes) : Prop := q ∈ (dictGet? db.exportations p).getD []
+
+/-- Well-formedness of a tag database as `make_db` writes it (what C11 establishes) — the
+hypothesis under which `add_imported_taxa` succeeds and yields a well-formed filter context. -/
+structure DB.WF (db : DB) : Prop where
+  /-- dictionaries have unique keys -/
+  progNodup : (db.programs.map (·.1)).Nodup
+  recNodup : ∀ p rec, (p, rec) ∈ db.programs → (rec.map (·.1)).Nodup
+  expNodup : (db.exportations.map (·.1)).Nodup
+  /-- every occurrence list is non-empty -/
+  spansNonempty : ∀ p rec t spans, (p, rec) ∈ db.programs → (t, spans) ∈ rec → spans ≠ []
+  /-- `taxa` is the exact inverted index of the program records -/
+  index : ∀ t p, p ∈ (dictGet? db.taxa t).getD [] ↔ ∃ rec spans, (p, rec) ∈ db.programs ∧ (t, spans) ∈ rec
+  indexKey : ∀ t p rec spans, (p, rec) ∈ db.programs → (t, spans) ∈ rec → t ∈ db.taxa.map (·.1)
+  /-- `exportations` has exactly one entry per program, and lists programs -/
+  expKeys : ∀ p, p ∈ db.exportations.map (·.1) ↔ p ∈ db.programs.map (·.1)
+  expValues : ∀ p q, db.Exp q p → q ∈ db.programs.map (·.1)
+  /-- the stored import relation is transitively closed -/
+  expTrans : ∀ a b d, db.Exp a b → db.Exp b d → db.Exp a d
+
 end Paroxy.Filter
